@@ -1,15 +1,31 @@
 ----------------------------- MODULE MC_AnchorPolicy -----------------------------
 EXTENDS AnchorPolicy, Json
 VARIABLE c
-AllCases == {[p |-> p, e |-> e] : p \in DOMAIN Policies, e \in {x \in Envs : WellFormed(x)}}
-Init == c \in AllCases
-Next == UNCHANGED c
+(* the well-formed environments: a product of the independent parts, flattened, then the two remaining cross-part conditions filtered *)
+(* (filtering the full product of the flat record type -- 3 million records -- is what would take TLC's time)                         *)
+Shapes == {[cal |-> FALSE, rec |-> "none"]} \cup {[cal |-> TRUE, rec |-> r] : r \in Recs}
+UserPubs == {[up |-> "none", upTime |-> "later", upHash |-> "true"]} \cup {[up |-> "given", upTime |-> t, upHash |-> h] : t \in UpTimes, h \in {"true", "other"}}
+Pfs == {[pf |-> "none", pfsrc |-> "user", pfc |-> [atSig |-> "absent", later |-> "none"]]}
+       \cup {[pf |-> "given", pfsrc |-> src, pfc |-> pc] : src \in {"user", "downloadTrusted", "downloadUntrusted"}, pc \in PfStates}
+Parts == [internal : {"ok", "broken"}, sh : Shapes, u : UserPubs, f : Pfs, extAllowed : BOOLEAN, ext : ExtBehaviours, cert : CertStates]
+Flat(t) == [internal |-> t.internal, cal |-> t.sh.cal, rec |-> t.sh.rec, up |-> t.u.up, upTime |-> t.u.upTime, upHash |-> t.u.upHash,
+            pf |-> t.f.pf, pfsrc |-> t.f.pfsrc, pfc |-> t.f.pfc, extAllowed |-> t.extAllowed, ext |-> t.ext, cert |-> t.cert]
+WellFormedEnvs == {Flat(t) : t \in {x \in Parts : (x.sh.rec # "auth" => x.cert = "valid") /\ (~x.sh.cal => x.u.upTime # "between")}}
+(* TLC evaluates initial states in one thread; successors are spread over the workers.  So the initial states fix only (policy, internal, *)
+(* shape, extAllowed) and one step completes the case.                                                                                 *)
+Stubs == {[stage |-> "stub", p |-> p, internal |-> i, sh |-> sh, extAllowed |-> x] : p \in DOMAIN Policies, i \in {"ok", "broken"}, sh \in Shapes, x \in BOOLEAN}
+Completions(st) == {[stage |-> "full", p |-> st.p, e |-> Flat([internal |-> st.internal, sh |-> st.sh, u |-> u, f |-> f, extAllowed |-> st.extAllowed, ext |-> b, cert |-> ct])]
+                     : u \in {y \in UserPubs : st.sh.cal \/ y.upTime # "between"}, f \in Pfs, b \in ExtBehaviours, ct \in (IF st.sh.rec = "auth" THEN CertStates ELSE {"valid"})}
+Init == c \in Stubs
+Next == c.stage = "stub" /\ c' \in Completions(c)
 Spec == Init /\ [][Next]_c
-P1 == OkOnlyIfBound(c.p, c.e)
-P2 == FailOnlyOnContradiction(c.p, c.e)
-P3 == BrokenNeverOk(c.p, c.e)
-P4 == NoAnchorIsNA(c.p, c.e)
+Full == c.stage = "full"
+AllWellFormed == Full => (c.e \in Envs /\ WellFormed(c.e))
+P1 == Full => OkOnlyIfBound(c.p, c.e)
+P2 == Full => FailOnlyOnContradiction(c.p, c.e)
+P3 == Full => BrokenNeverOk(c.p, c.e)
+P4 == Full => NoAnchorIsNA(c.p, c.e)
 (* completeness in the other direction for the single-anchor policies: a bound, internally consistent signature is OK unless a configured anchor contradicts it *)
-P5 == (c.e.internal = "ok" /\ Bound(c.p, c.e) /\ ~Contradiction(c.p, c.e)) => Verdict(c.p, c.e).res = "OK"
-Emit == PrintT("CASE " \o ToJson([p |-> c.p, e |-> c.e, v |-> Verdict(c.p, c.e)]))
+P5 == Full => ((c.e.internal = "ok" /\ Bound(c.p, c.e) /\ ~Contradiction(c.p, c.e)) => Verdict(c.p, c.e).res = "OK")
+Emit == Full => PrintT("CASE " \o ToJson([p |-> c.p, e |-> c.e, v |-> Verdict(c.p, c.e)]))
 =============================================================================
